@@ -1,5 +1,8 @@
 import DS.Lemmas.Dec
 import DS.Lemmas.Formats
+import DS.Lemmas.FormatsX
+import DS.Lemmas.FormatsC
+import DS.Lemmas.FormatsI
 
 /-!
 # C04 — writing a structure and reading it back preserves everything the format carries
@@ -8,7 +11,9 @@ Text layer (all inputs, all widths and precisions) and per-format round trips
 `readStr(writeStr(s, f), f)` at the string level, on the exact-decimal models of
 `DS.Model.Dec` / `DS.Model.Formats`.  `quant_f` rounds every carried quantity to the printed
 precision and normalises text fields the way the reader does; `repr_f` is the decidable
-representable range the proof needed.
+representable range the proof needed.  All seven formats have the file-level theorem `roundtrip_f`;
+the second trip is `idem_f` (xyz, rawxyz, discus, pdffit, pdb; cif under `stableCif`) and
+`idem_xcfg_partial` / `xcfg_same_columns` for xcfg.
 -/
 namespace DS.Props.C04
 open DS.Dec DS.Formats
@@ -129,15 +134,147 @@ theorem repr_closed :
     (∀ d, reprPdffit d = true → reprPdffit (quantPdffit d) = true) ∧ (∀ d, reprPdb d = true → reprPdb (quantPdb d) = true) :=
   ⟨reprXyz_quant, reprRaw_quant, reprDiscus_quant, reprPdffit_quant, reprPdb_quant⟩
 
-/-! ## XCFG and CIF: full statements (not proved) and the proved record-level fragments -/
+/-! ## XCFG and CIF: the full file-level statements, proved -/
 
-/-- full-strength statement for XCFG: `parse(write(d)) = quant(d)` on the modelled writer and reader
-(checked on every generated case by the correspondence; no proof) -/
+/-- full-strength statement for XCFG: `parse(write(d)) = quant(d)` on the modelled writer and reader,
+for every document in `reprXcfg = rangeXcfg ∧ wfXcfg` -/
 def roundtrip_xcfg_statement : Prop := DS.Formats.roundtrip_xcfg_statement
 
 /-- full-strength statement for CIF on the layout `P_cif.toLines` emits (PyCifRW itself is not
-modelled; checked on every generated case by the correspondence; no proof) -/
+modelled) -/
 def roundtrip_cif_statement : Prop := DS.Formats.roundtrip_cif_statement
+
+/-- XCFG: `readStr(writeStr(s, "xcfg"), "xcfg")` is the quantised document, for every document of the
+range (at least one atom, nine base components, element symbols that are single non-numeric tokens,
+auxiliary names that are tokens) that is consistent (`wfXcfg`: one value per stored auxiliary and a
+velocity on every atom when the first has one — otherwise the real writer raises `AttributeError`) -/
+theorem roundtrip_xcfg : roundtrip_xcfg_statement := DS.Formats.roundtrip_xcfg
+
+theorem roundtrip_xcfg' (d : XcfgS) (h : reprXcfg d = true) : parseXcfg (ofText (toText (writeXcfg d))) = .ok (quantXcfg d) :=
+  DS.Formats.roundtrip_xcfg d h
+
+/-- non-vacuity of `roundtrip_xcfg`: stored auxiliary, partial occupancy, anisotropic U, velocities -/
+example : reprXcfg ⟨[3, 0, 0, 0, 3, 0, 0, 0, 3], false, ["charge".toList, "Uiso".toList],
+    [⟨"Na".toList, 22.9898, ⟨0, 1/2, -1/3⟩, 1/2, [1/100, 0, 0, 0, 1/50, 1/300, 0, 1/300, 1/100], some ⟨1, 2, 3⟩, [1]⟩,
+     ⟨"cl1-".toList, 35.453, ⟨1/4, 1/4, 1/4⟩, 1, [0, 0, 0, 0, 0, 0, 0, 0, 0], some ⟨0, 0, 1/7⟩, [-1]⟩]⟩ = true := by decide +kernel
+
+/-- the two consistency clauses are needed: a document with a value too many is written with an extra
+column and the reader rejects the text (the model's writer is total; the real one raises) -/
+example : parseXcfg (ofText (toText (writeXcfg ⟨[3, 0, 0, 0, 3, 0, 0, 0, 3], false, [],
+    [⟨"C".toList, 12, ⟨0, 0, 0⟩, 1, [0, 0, 0, 0, 0, 0, 0, 0, 0], none, [1]⟩]⟩))) = .error .sfe := by decide +kernel
+
+/-- CIF: `parse(write(d)) = quant(d)` for every document with at least one atom whose element symbols
+have the form letters[digit sign] (any title, any cell, any ADPs) -/
+theorem roundtrip_cif : roundtrip_cif_statement := DS.Formats.roundtrip_cif
+
+theorem roundtrip_cif' (d : CifS) (h : reprCif d = true) : parseCif (ofText (toText (writeCif d))) = .ok (quantCif d) :=
+  DS.Formats.roundtrip_cif d h
+
+/-- non-vacuity of `roundtrip_cif`: two-line title, repeated element, isotropic and anisotropic atoms -/
+example : reprCif ⟨"NaCl\nrock salt".toList, ⟨5.64, 5.64, 5.64, 90, 90, 90⟩,
+    [⟨"Na1+".toList, ⟨0, 0, 0⟩, 1/100, 1, [1/100, 0, 0, 0, 1/100, 0, 0, 0, 1/100]⟩,
+     ⟨"Cl".toList, ⟨1/2, 1/2, 1/2⟩, 1/75, 1/2, [1/100, 0, 1/500, 0, 1/50, 0, 1/500, 0, 1/100]⟩,
+     ⟨"Cl".toList, ⟨1/2, 0, 0⟩, 0, 1, [0, 0, 0, 0, 0, 0, 0, 0, 0]⟩]⟩ = true := by decide
+
+/-! ## XCFG and CIF: second round trip
+
+The reader's result has its own type, so the second trip goes through the document the writer sees for
+the re-read structure (`reloadCif`, `reloadXcfg`: the reader's attribute assignments, with the ADP
+semantics of a lattice with orthogonal axes; compared off-line with the real reader on 300 random
+structures each, not part of the continuous correspondence). -/
+
+/-- CIF: what was read can be written and read again (no failure on the second trip) -/
+theorem repr_closed_cif (d : CifS) (h : reprCif d = true) : reprCif (reloadCif (quantCif d)) = true :=
+  DS.Formats.reprCif_reload d h
+
+/-- CIF: the second trip is again a first trip of the re-read document, unconditionally -/
+theorem second_cif (d : CifS) (h : reprCif d = true) :
+    parseCif (ofText (toText (writeCif (reloadCif (quantCif d))))) = .ok (quantCif (reloadCif (quantCif d))) :=
+  DS.Formats.roundtrip_cif _ (DS.Formats.reprCif_reload d h)
+
+/-- CIF: the second reading is the first reading (no drift), for documents that are stable in the sense
+of `stableCif`: element symbols in normal form (else the site labels are renumbered), anisotropic tensors
+still anisotropic after rounding to 6 decimals (else the ADP type switches), equivalent isotropic value
+of the rounded tensor printing as before.  Each excluded point is a real change on the second trip. -/
+theorem idem_cif (d : CifS) (h : reprCif d = true) (hs : stableCif d = true) :
+    parseCif (ofText (toText (writeCif (reloadCif (quantCif d))))) = .ok (quantCif d) :=
+  DS.Formats.idem_cif d h hs
+
+/-- non-vacuity of `idem_cif` (isotropic, anisotropic and zero ADPs, an ion, a repeated element) -/
+example : reprCif ⟨"NaCl\nrock salt".toList, ⟨5.64, 5.64, 5.64, 90, 90, 90⟩,
+    [⟨"Na1+".toList, ⟨0, 0, 0⟩, 1/100, 1, [1/100, 0, 0, 0, 1/100, 0, 0, 0, 1/100]⟩,
+     ⟨"Cl".toList, ⟨1/2, 1/2, 1/2⟩, 1/75, 1/2, [1/100, 0, 1/500, 0, 1/50, 0, 1/500, 0, 1/100]⟩,
+     ⟨"Cl".toList, ⟨1/2, 0, 0⟩, 0, 1, [0, 0, 0, 0, 0, 0, 0, 0, 0]⟩]⟩ = true ∧
+  stableCif ⟨"NaCl\nrock salt".toList, ⟨5.64, 5.64, 5.64, 90, 90, 90⟩,
+    [⟨"Na1+".toList, ⟨0, 0, 0⟩, 1/100, 1, [1/100, 0, 0, 0, 1/100, 0, 0, 0, 1/100]⟩,
+     ⟨"Cl".toList, ⟨1/2, 1/2, 1/2⟩, 1/75, 1/2, [1/100, 0, 1/500, 0, 1/50, 0, 1/500, 0, 1/100]⟩,
+     ⟨"Cl".toList, ⟨1/2, 0, 0⟩, 0, 1, [0, 0, 0, 0, 0, 0, 0, 0, 0]⟩]⟩ = true := by decide +kernel
+
+/-- the stability clauses are needed: two symbols that differ only in letter case get the labels
+`NA1`, `Na1` on the first trip and `Na1`, `Na2` on the second -/
+example : (quantCif ⟨[], ⟨4, 4, 4, 90, 90, 90⟩,
+      [⟨"NA".toList, ⟨0, 0, 0⟩, 0, 1, [0, 0, 0, 0, 0, 0, 0, 0, 0]⟩,
+       ⟨"Na".toList, ⟨1/2, 1/2, 1/2⟩, 0, 1, [0, 0, 0, 0, 0, 0, 0, 0, 0]⟩]⟩).atoms.map (·.label) = ["NA1".toList, "Na1".toList] ∧
+    (quantCif (reloadCif (quantCif ⟨[], ⟨4, 4, 4, 90, 90, 90⟩,
+      [⟨"NA".toList, ⟨0, 0, 0⟩, 0, 1, [0, 0, 0, 0, 0, 0, 0, 0, 0]⟩,
+       ⟨"Na".toList, ⟨1/2, 1/2, 1/2⟩, 0, 1, [0, 0, 0, 0, 0, 0, 0, 0, 0]⟩]⟩))).atoms.map (·.label) = ["Na1".toList, "Na2".toList] := by
+  decide +kernel
+
+/-- full-strength second-trip statement for XCFG: the second reading is the first one whenever the
+re-read document is representable, the occupancy / displacement classification survives printing, and the
+second write chooses the same length unit (printed exactly) and does not recentre.
+NOT proved in this form: `idem_xcfg_partial` assumes directly that the three position columns reprint
+(instead of deriving it from "same length unit, no recentring", which needs a theory of the double
+rounding `fl` that is not developed). -/
+def idem_xcfg_statement : Prop :=
+  ∀ (unit : Bool) (mass : Str → Rat) (d : XcfgS), reprXcfg d = true →
+    reprXcfg (reloadXcfg unit mass (quantXcfg d)) = true →
+    classStableXcfg mass d = true →
+    (xcfgLayout (reloadXcfg unit mass (quantXcfg d))).a = (xcfgLayout d).a →
+    roundSig 8 ((xcfgLayout d).a : Rat) = ((xcfgLayout d).a : Rat) →
+    (xcfgLayout (reloadXcfg unit mass (quantXcfg d))).shift = ⟨0, 0, 0⟩ →
+    parseXcfg (ofText (toText (writeXcfg (reloadXcfg unit mass (quantXcfg d))))) = .ok (quantXcfg d)
+
+/-- XCFG: the second trip is again a first trip of the re-read document whenever that document is
+representable (no failure) -/
+theorem second_xcfg (unit : Bool) (mass : Str → Rat) (d : XcfgS)
+    (h' : reprXcfg (reloadXcfg unit mass (quantXcfg d)) = true) :
+    parseXcfg (ofText (toText (writeXcfg (reloadXcfg unit mass (quantXcfg d))))) =
+      .ok (quantXcfg (reloadXcfg unit mass (quantXcfg d))) :=
+  DS.Formats.roundtrip_xcfg _ h'
+
+/-- XCFG, no auxiliary growth (the defect repaired by 4ed75d5, as a theorem): the second write emits
+exactly the auxiliary columns of the first and makes the same choices for velocities, occupancy and
+displacement terms, whenever some non-unit occupancy and some anisotropic tensor survive printing with 8
+significant digits (`classStableXcfg`; otherwise a column is legitimately dropped) -/
+theorem xcfg_same_columns (unit : Bool) (mass : Str → Rat) (d : XcfgS) (h : reprXcfg d = true)
+    (hs : classStableXcfg mass d = true) :
+    (xcfgLayout (reloadXcfg unit mass (quantXcfg d))).aux = (xcfgLayout d).aux ∧
+    (xcfgLayout (reloadXcfg unit mass (quantXcfg d))).noVel = (xcfgLayout d).noVel :=
+  let hc := DS.Formats.xcfg_same_columns unit mass d h hs
+  ⟨hc.2.1, hc.1⟩
+
+/-- XCFG, proved part of the second trip: under `stableXcfg` (re-read document representable;
+classification of occupancies and tensors survives printing; same length unit; position columns reprint)
+the second reading is the first reading: same atoms, same auxiliary columns, same values -/
+theorem idem_xcfg_partial (unit : Bool) (mass : Str → Rat) (d : XcfgS) (h : reprXcfg d = true)
+    (hs : stableXcfg unit mass d = true) :
+    parseXcfg (ofText (toText (writeXcfg (reloadXcfg unit mass (quantXcfg d))))) = .ok (quantXcfg d) :=
+  DS.Formats.idem_xcfg_partial unit mass d h hs
+
+/-- non-vacuity of `xcfg_same_columns` and `idem_xcfg_partial` (stored auxiliary, partial occupancy,
+anisotropic U, velocities, a negative coordinate that makes the first write recentre the structure) -/
+example : stableXcfg false (fun _ => 0) ⟨[3, 0, 0, 0, 3, 0, 0, 0, 3], false, ["charge".toList, "Uiso".toList],
+    [⟨"Na".toList, 22.9898, ⟨0, 1/2, -1/3⟩, 1/2, [1/100, 0, 0, 0, 1/50, 1/300, 0, 1/300, 1/100], some ⟨1, 2, 3⟩, [1]⟩,
+     ⟨"cl1-".toList, 35.453, ⟨1/4, 1/4, 1/4⟩, 1, [0, 0, 0, 0, 0, 0, 0, 0, 0], some ⟨0, 0, 1/7⟩, [-1]⟩]⟩ = true := by
+  decide +kernel
+
+/-- `classStableXcfg` is needed: an occupancy that prints as `1` makes the second write drop the column -/
+example : (xcfgLayout ⟨[3, 0, 0, 0, 3, 0, 0, 0, 3], false, [],
+      [⟨"C".toList, 12, ⟨0, 0, 0⟩, 1 - 1 / 10 ^ 12, [0, 0, 0, 0, 0, 0, 0, 0, 0], none, []⟩]⟩).aux = ["occupancy".toList] ∧
+    (xcfgLayout (reloadXcfg false (fun _ => 12) (quantXcfg ⟨[3, 0, 0, 0, 3, 0, 0, 0, 3], false, [],
+      [⟨"C".toList, 12, ⟨0, 0, 0⟩, 1 - 1 / 10 ^ 12, [0, 0, 0, 0, 0, 0, 0, 0, 0], none, []⟩]⟩))).aux = [] := by
+  decide +kernel
 
 /-- proved fragment for XCFG: every entry line reads back, column by column, as the printed numbers -/
 theorem roundtrip_xcfg_partial (L : XLayout) (a : XAtom) :
